@@ -1,5 +1,6 @@
 import McpModel.Base.Proto
 import McpModel.Notify.System
+import McpModel.Notify.Roots
 /-!
 Driver for E14 (C18): the STRING LAYER only.  It parses the harness's op tokens and the implementation's
 observation into the typed records of `Monitor.lean` (`Mon.Op`, `Mon.Obs`), replays the op on the typed
@@ -36,8 +37,10 @@ Op grammar (one label per record; observation after `=>`):
   xlisten c<i> L<n> <mask|-> u<j>… [hold]          => ack <kinds|-> u<j>… [parked] | noack   (a further, raw subscriptions/listen of a connected 2026-07-28 session: any kinds and any number of distinct URIs; noack: the SubscribeHandler refused one of them)
   xend c<i> <m|L<n>> [hold]                        => ok | ok cancel-held   (that listen is cancelled and its handler has ended; r<j> ends through unsubscribe; hold: the client's notifications/cancelled is held in its transport until `canceldone`)
   unsubscribe c<i> u<j> hold                       => ok cancel-held   (2026-07-28: ClientSession.Unsubscribe has returned — cs.resourceSubs no longer has the URI —, the cancellation is held)
+  xend c<i> L<n> park / unsubscribe c<i> u<j> park => ok unsub-held    (the stream has ended on the server; its clean-up is parked in the application's UnsubscribeHandler, before its first critical section, until `unsubdone`)
+  unsubdone c<i> <r<j>|L<n>>                       => ok          (that UnsubscribeHandler call returns; the clean-up runs)
   ackdone c<i> <m|r<j>|L<n>>                       => ok          (the handler held right after its ack write goes on)
-  close c<i>                                       => ok
+  close c<i> [drop]                                => ok          (drop: the connection is cut under the client — no notifications/cancelled for its open listens, no orderly ClientSession.Close: the server reads EOF, the connection cancels the parked handlers, their clean-up runs, then Server.disconnect; the same label `close` of the model)
   rupdated u<j> [names u<k>]                       => sent@<t> …   (names: the notification the subscribers of u<j> get names u<k>, whose content changed)
   list c<i> <tools|prompts|resources|templates|read:j> <n|post|pre>  => ret v<N> hit|miss | held v<N> | pre
   send c<i> <key> => held v<N> ;  fill c<i> <key> => ret v<N> miss
@@ -133,6 +136,7 @@ def parseOp (toks : List String) : Op :=
    | ["ackdone", c, which] => do some (Op.ackdone (← parseSlot c) (← parseName which))
    | "unsubscribe" :: c :: u :: rest => do some (Op.unsubscribe (← parseSlot c) (← parseUri u) (← holdTok rest))
    | ["close", c] => (parseSlot c).map Op.close
+   | ["close", c, "drop"] => (parseSlot c).map Op.close
    | ["rupdated", u] => (parseUri u).map (fun u => Op.rupdated u u)
    | ["rupdated", u, "names", v] => do some (Op.rupdated (← parseUri u) (← parseUri v))
    | ["list", c, key, mode] => do some (Op.list (← parseSlot c) (← parseKey key) (← parseMode mode))
@@ -392,20 +396,127 @@ def clauseText : Clause → String
 
 /-! ### the engine -/
 
+/-! ### `park` / `unsubdone`: the end of a listen parked in the application's UnsubscribeHandler
+
+`xend c<i> L<n> park` / `unsubscribe c<i> u<j> park`: the cancellation reaches the server, the handler's context
+ends, its deferred functions begin: the FIRST of them is `unsubscribeListen` for the last URI the stream was
+granted, and its first statement is the call of `ServerOptions.UnsubscribeHandler` — application code, outside
+the server lock, before every critical section of the clean-up (regenerated fact `notify.listen_handover`:
+`unsubscribeListen:handler,lock,…`).  The harness parks THAT call until `unsubdone c<i> <name>`.  In the code
+that exists nothing has been read or written at that point, so for the typed model the window is the one of
+a cancellation held on its way (`hold` … `canceldone`: the stream is registered in every table, `listenEnd`
+runs at the release); the tokens are mapped onto those labels here, the observation is spelled
+`ok unsub-held`.  A tree whose clean-up reads the tables BEFORE it calls the application and acts on what it
+read afterwards (check-then-act around user code) differs inside that window only.  `park` is a label only
+for a live listen that was granted a URI (no other end calls the handler): anything else is `bad-op`. -/
+
+def isPark (toks : List String) : Bool := toks.getLast? == some "park"
+
+/-- the listen the op ends: (slot, request id) -/
+def endedListen (toks : List String) : Option (Slot × Nat) :=
+  match toks with
+  | ["xend", c, name, _] => do some (← parseSlot c, ← parseName name)
+  | ["unsubscribe", c, u, _] => do some (← parseSlot c, 2 * (← parseUri u) + 1)
+  | _ => none
+
+def parkable (y : Sys.State) (toks : List String) : Bool :=
+  match endedListen toks with
+  | some (i, id) => y.srv.listens.any (fun l => l.sid == (y.slots i).sid && l.id == id && !l.uris.isEmpty)
+  | none => false
+
+def normToks (toks : List String) : List String :=
+  if isPark toks then toks.dropLast ++ ["hold"] else
+  match toks with
+  | "unsubdone" :: rest => "canceldone" :: rest
+  | _ => toks
+
+/-! ### the client side: `roots …` records (model and monitor: `Roots.lean`) -/
+
+def parseRootsCfg (tok : String) : Option Roots.Cfg :=
+  if tok == "nil" then some {} else
+  if tok == "empty" then some { capsNil := false } else
+  (tok.splitOn "+").foldlM (fun (c : Roots.Cfg) part =>
+    if part == "v2on" then some { c with v2 := some true }
+    else if part == "v2off" then some { c with v2 := some false }
+    else if part == "v1on" then some { c with v1 := true }
+    else if part == "v1off" then some { c with v1 := false }
+    else none) { capsNil := false }
+
+def parseRootsLabel : List String → Option Roots.Label
+  | "add" :: us => (us.mapM parseUri).map Roots.Label.add
+  | "remove" :: us => (us.mapM parseUri).map Roots.Label.remove
+  | ["connect", sid, g] =>
+    if g == "legacy" || g == "modern" then sid.toNat?.map (Roots.Label.connect · (g == "modern")) else none
+  | ["close", sid] => sid.toNat?.map Roots.Label.close
+  | _ => none
+
+def gotStr (l : List Nat) : String :=
+  if l.isEmpty then "got -" else String.intercalate " " ("got" :: (sortBy (· ≤ ·) l).map toString)
+
+/-- `got 1 3` / `got -`; anything else is no observation of a roots call -/
+def parseGot (impl : String) : Option (List Nat) :=
+  match words impl with
+  | ["got", "-"] => some []
+  | "got" :: rest => rest.mapM (·.toNat?)
+  | _ => none
+
+def rootsClauseText : Roots.Clause → String
+  | .missed => "C18: at_least_one_after_burst (client roots): AddRoots / RemoveRoots changed the client's roots with listChanged enabled, and a connected session was not sent notifications/roots/list_changed"
+  | .disabled => "C18: none_when_disabled (client roots): notifications/roots/list_changed delivered although the client's roots listChanged capability is switched off (RootsV2 before Roots)"
+  | .notEntitled => "C18: fanout_entitled_only (client roots): notifications/roots/list_changed reached a server whose session is closed or was never connected"
+  | .noChange => "C18: at_least_one_after_burst (client roots): a notification although the call changed nothing (AddRoots without roots, RemoveRoots naming only URIs the client does not have)"
+  | .twice => "C18: fanout_entitled_only (client roots): one call notified the same session twice"
+
+structure RDState where
+  on : Bool := false
+  s : Roots.State := {}
+  m : Roots.MState := {}
+
+/-- one `roots …` record: (state, model observation, clause) -/
+def rootsStep (d : RDState) (toks : List String) (impl : String) : RDState × String × Option String :=
+  match toks with
+  | ["config", c] =>
+    match parseRootsCfg c, d.on with
+    | some cfg, false => ({ on := true, s := { cfg := cfg }, m := { cfg := cfg } }, "ok", none)
+    | _, _ => (d, "bad-op", none)
+  | _ =>
+    if !d.on then (d, "bad-op", none) else
+    match parseRootsLabel toks with
+    | none => (d, "bad-op", none)
+    | some l =>
+      let r := Roots.step d.s l
+      let model := match l with
+        | .add _ | .remove _ => gotStr (Roots.handled r.2)
+        | _ => "ok"
+      -- the monitor reads the IMPLEMENTATION's observation; an unreadable one of a call shows nobody
+      let got := match l with
+        | .add _ | .remove _ => (parseGot impl).getD []
+        | _ => []
+      let (m', viol) := Roots.monStep d.m l got
+      ({ d with s := r.1, m := m' }, model, viol.map rootsClauseText)
+
 structure DState where
   sys : Sys.State := {}
   mon : MState := {}
+  roots : RDState := {}
 
 def engine : Engine DState where
   init := {}
   step d toks impl :=
     match toks with
     | ["reset"] => ({}, { model := "ok" })
+    | "roots" :: rest =>
+      let (r', model, viol) := rootsStep d.roots rest impl
+      ({ d with roots := r' }, { model := model, violated := viol })
     | _ =>
-      let op := parseOp toks
-      let (sys', model) := Sys.sysStep d.sys op (hintOf impl)
-      let (mon', viol) := monStep d.mon ⟨op, parseObs op impl⟩
-      ({ sys := sys', mon := mon' }, { model := obsStr model, violated := viol.map clauseText })
+      let park := isPark toks
+      let op := if park && !parkable d.sys toks then Op.bad else parseOp (normToks toks)
+      let impl' := if park && impl == "ok unsub-held" then "ok cancel-held"
+                   else if impl == "ok cancel-held" && park then "?" else impl
+      let (sys', model) := Sys.sysStep d.sys op (hintOf impl')
+      let (mon', viol) := monStep d.mon ⟨op, parseObs op impl'⟩
+      let shown := if park && obsStr model == "ok cancel-held" then "ok unsub-held" else obsStr model
+      ({ d with sys := sys', mon := mon' }, { model := shown, violated := viol.map clauseText })
 
 end Notify.Drv
 
